@@ -24,7 +24,10 @@ RULE = ("Mode 'burst': a live server subprocess (ThreadingTCPServer or ForkingTC
         "probe, have no zombie children and be back to its baseline thread count. Mode 'gated' (harness-owned "
         "schedule): in-process, a cache writer is stopped right after it has truncated the cache file / after each "
         "write, a reader request for the same directory runs at that instant and must get its solo reply. Mode "
-        "'seam': requests are sent both through the in-process driver and over real sockets; the replies must be "
+        "'lazyinit' (harness-owned schedule): the first request after start-up is suspended inside the configuration "
+        "lookup feeding a lazily initialised shared table (handler list, type mapping, sidecar table, root path, "
+        "extension stripping, ...) and a second complete request runs at that instant; both must get their solo replies. "
+        "Mode 'seam': requests are sent both through the in-process driver and over real sockets; the replies must be "
         "identical (validates the seam all other checks rely on, incl. real TLS). Non-trivial burst: >= 2 requests "
         "that overlapped in time on the same directory; distinct by case hash.")
 ASSUMPTIONS = [
@@ -47,7 +50,7 @@ def _mask(b):
 
 @st.composite
 def _case(draw):
-    mode = draw(st.sampled_from(["burst", "burst", "burst", "gated", "seam"]))
+    mode = draw(st.sampled_from(["burst", "burst", "burst", "gated", "seam", "lazyinit", "lazyinit", "lazyinit"]))
     site = draw(sites.site(full=True, depth=2, max_items=4))
     if mode == "burst":
         n = draw(st.integers(2, 32))
@@ -57,6 +60,11 @@ def _case(draw):
             t = draw(st.sampled_from(focus)) if draw(st.integers(0, 9)) < 8 else draw(st.integers(0, 30))
             reqs.append([t, draw(st.sampled_from(FORMS))])
         return {"mode": "burst", "servertype": draw(st.sampled_from(["ThreadingTCPServer", "ForkingTCPServer"])), "site": site, "reqs": reqs}
+    if mode == "lazyinit":
+        # both requests are mostly listings (even target numbers): they touch every lazily initialised table
+        return {"mode": "lazyinit", "site": site, "gate": draw(st.sampled_from(LAZY_KEYS[:5] * 3 + LAZY_KEYS[5:])),
+                "outer": [draw(st.sampled_from([0, 0, 2, 4, 1, 3])), draw(st.sampled_from(FORMS))],
+                "inner": [draw(st.sampled_from([0, 0, 2, 4, 1, 3])), draw(st.sampled_from(FORMS))]}
     if mode == "gated":
         return {"mode": "gated", "site": site, "target": draw(st.integers(0, 30)), "writer": draw(st.sampled_from(FORMS)),
                 "reader": draw(st.sampled_from(FORMS))}
@@ -69,7 +77,80 @@ def strategy(tier):
 
 
 def examples(tier):
-    return 96 if tier == "quick" else 2000
+    return 128 if tier == "quick" else 3000
+
+
+LAZY_KEYS = [["GopherEntry", "mapping"], ["GopherEntry", "eaexts"], ["handlers.HandlerMultiplexer", "handlers"],
+             ["pygopherd", "root"], ["handlers.UMN.UMNDirHandler", "extstrip"], ["protocols.ProtocolMultiplexer", "protocols"],
+             ["handlers.dir.DirHandler", "cachefile"], ["GopherEntry", "defaultmimetype"]]
+
+
+_GATE = {"fired": True, "inner": None, "gate": None, "ireq": None, "itls": False}
+
+
+import configparser as _configparser  # noqa: E402
+
+
+class GateConfig(_configparser.ConfigParser):
+    """module-level (the directory cache pickles entries together with their config object)"""
+
+    def get(self, section, option, **kw):
+        st_ = _GATE
+        if not st_["fired"] and (section, option) == st_["gate"]:
+            st_["fired"] = True
+            r = drive.serve(self, st_["ireq"], tls=st_["itls"], realfd=True, reset=False)
+            st_["inner"] = _mask(r.response)
+        return super().get(section, option, **kw)
+
+
+def _check_lazyinit(case, ctx):
+    """harness-owned schedule point: the first request after start-up is suspended inside the configuration lookup that
+    feeds a lazily initialised shared table; a second complete request runs at that instant (what another thread of the
+    threading server would do); both must get their solo replies."""
+    import configparser
+    objs, dirs = _targets(case["site"])
+    spec = sites.to_spec(case["site"])
+    base, root = world.build(spec)
+    try:
+        oo, of = _pick(objs, dirs, case["outer"][0]), case["outer"][1]
+        io_, if_ = _pick(objs, dirs, case["inner"][0]), case["inner"][1]
+        oreq, otls = _request(oo, of)
+        ireq, itls = _request(io_, if_)
+        over = {"handlers.dir.DirHandler::cachetime": "0"}
+        plain = drive.make_config(root, "full", **over)
+        want_o = _mask(drive.serve(plain, oreq, tls=otls, realfd=True).response)
+        want_i = _mask(drive.serve(plain, ireq, tls=itls, realfd=True).response)
+        world.remove_caches(root)
+        gate = tuple(case["gate"])
+        state = _GATE
+        state.update(fired=False, inner=None, gate=gate, ireq=ireq, itls=itls)
+        cfg = drive.make_config(root, "full", cls=GateConfig, **over)
+        drive.reset_globals()
+        try:
+            ro = drive.serve(cfg, oreq, tls=otls, realfd=True, reset=False)
+        finally:
+            fired = state["fired"]
+            state["fired"] = True  # disarm
+        got_o = _mask(ro.response)
+        ctx.label("lazyinit", "lazyinit-gate:%s" % gate[1], "lazyinit-fired:%s" % fired)
+        if fired:
+            ctx.nontriv()
+        ctx.sample({"gate": list(gate), "outer": [oo["sel"], of], "inner": [io_["sel"], if_], "fired": fired}, cls="lazy" + gate[1])
+        fails = []
+        if fired and state["inner"] != want_i:
+            fails.append(Fail("lazyinit-inner-differs:%s" % gate[1],
+                              "a %s request for %r served while the first request after start-up sits in the lazy initialisation fed by "
+                              "[%s] %s gets a different reply than alone" % (if_, io_["sel"], gate[0], gate[1]),
+                              {"concurrent": world.u((state["inner"] or b"")[:400]), "alone": world.u(want_i[:400])}))
+        if got_o != want_o:
+            fails.append(Fail("lazyinit-outer-differs:%s" % gate[1],
+                              "the first request (%s %r) gets a different reply when another request runs inside its lazy initialisation of [%s] %s" % (
+                                  of, oo["sel"], gate[0], gate[1]),
+                              {"concurrent": world.u(got_o[:400]), "alone": world.u(want_o[:400]), "logs": ro.logs[-3:],
+                               "escaped": repr(ro.escaped), "handled": ro.handled_signatures()}))
+        return fails
+    finally:
+        world.rmtree(base)
 
 
 def _targets(site):
@@ -320,4 +401,6 @@ def check_case(case, ctx):
         return _check_burst(case, ctx)
     if case["mode"] == "gated":
         return _check_gated(case, ctx)
+    if case["mode"] == "lazyinit":
+        return _check_lazyinit(case, ctx)
     return _check_seam(case, ctx)
